@@ -107,3 +107,17 @@ func init() {
 		return RunAbmf(env, a[0], a[1], a[2])
 	}
 }
+
+func init() {
+	Modes["conc"] = func(a []string) error {
+		if len(a) != 3 {
+			return fmt.Errorf("conc <prefix> <cases.json> <out.ndjson>")
+		}
+		env, err := StartEnv(EnvOpts{})
+		if err != nil {
+			return err
+		}
+		defer env.Close()
+		return RunConc(env, a[0], a[1], a[2])
+	}
+}
